@@ -41,6 +41,18 @@ def main(argv):
         return _init(self, *a, **k)
     StateSpace.__init__ = init
 
+    # Engine configuration: never *speculatively* skip a call (CrossHair replaces calls to builtins such
+    # as hash() by a fresh symbolic value with 30% probability and reconciles later; on this code base
+    # that only multiplies paths).  Explicit contracts / specs_complete are still honoured.
+    import crosshair.core as _core
+    _consider = _core.consider_shortcircuit
+
+    def consider_shortcircuit(fn, sig, bound, subconditions, allow_interpretation):
+        if allow_interpretation:
+            return None
+        return _consider(fn, sig, bound, subconditions, allow_interpretation)
+    _core.consider_shortcircuit = consider_shortcircuit
+
     spec = importlib.util.spec_from_file_location(os.path.basename(path)[:-3], path)
     module = importlib.util.module_from_spec(spec)
     sys.modules[spec.name] = module
